@@ -11,7 +11,7 @@ func init() {
 			}
 			return "1..2 assets, 1..3 source snapshots each, every prefix length already in the target, explicit / implicit asset list, no fault / source fault / target fault, 1 and 2 workers"
 		},
-		outside:     "more than two workers; with two workers only the executed job assignment is explored (the certificate is not issued there: two workers draining one jobs channel is legitimate nondeterminism); file-system / SQL repositories as Sync endpoints; cmd/indicator-sync flag parsing",
+		outside:     "more than two workers; with two workers three scheduling policies of the executor (lowest-id first, highest-id first, round robin) are explored, not every job assignment (the certificate is not issued there: two workers draining one jobs channel is legitimate nondeterminism); file-system / SQL repositories as Sync endpoints; cmd/indicator-sync flag parsing",
 		assumptions: append([]string{"day-number model of time.Time", "time.Sleep is a no-op; slog calls have no effect", realModeNote}, commonAssumptions...),
 		cases: func(tier string, pr *prober) []sym.CaseSpec {
 			maxA := 2
@@ -41,9 +41,15 @@ func init() {
 									if workers == 2 && (fault != 0 && ns > 1) {
 										continue
 									}
-									c := cs("H_C12", na, ns, tm, explicit, fault, workers)
-									c.Cert, c.TrackMem = true, true
-									out = append(out, c)
+									for sched := 0; sched <= 2; sched++ {
+										if workers == 1 && sched > 0 {
+											continue // one worker: the certificate covers every schedule
+										}
+										c := cs("H_C12", na, ns, tm, explicit, fault, workers)
+										c.Cert, c.TrackMem = true, true
+										c.Sched = sched
+										out = append(out, c)
+									}
 								}
 							}
 						}
